@@ -114,6 +114,7 @@ void scen_c02_lib(mt_case * c) {
   }
   mt_hash(c->prog.p, c->prog.pos);
   for (int i = 0; i < MV_MAXP; i++) srng[i] = (uint64_t)c->seed * 1000003ULL + (uint64_t)i * 7919 + 1;
+  mt_allow_prelude = 1;
   mt_lib_start(c, &e, 0);
   myth_steal_func_t prev = 0;
   if (L.use_custom) prev = myth_wsapi_set_stealfunc(my_steal);
